@@ -41,6 +41,7 @@ def ops(g):
         L.append(('_z = %s + _b' % src, [('assign', '_z', B('+', V(src), V('_b')))]))
         L.append(('_z = %s - [1]' % src, [('assign', '_z', B('-', V(src), ('arr', [N(1)])))]))
         L.append(('_z = %s select [0,1]' % src, [('assign', '_z', B('select', V(src), ('arr', [N(0), N(1)])))]))
+        L.append(('_z = %s select [0,9]' % src, [('assign', '_z', B('select', V(src), ('arr', [N(0), N(9)])))]))     # the range covers the whole array: still a new array
         L.append(('_z = %s apply {_x}' % src, [('assign', '_z', ('apply', V(src), [V('_x')]))]))
         L.append(('_z = %s select {true}' % src, [('assign', '_z', ('selectc', V(src), [('bool', True)]))]))
     L.append(('_c = _z', [('assign', '_c', V('_z'))]))
@@ -122,6 +123,12 @@ def run(ctx):
     funcs = sorted(n for n in h.m.DEFINED if ('d_array' in n or 'ops_generic' in n or 'hashmap' in n) and len(n) < 120)
     def key(cid, v, rr):
         if cid == 'hist.hm.via' and v.get('kind') == 'recursion': return 'arr.hist:hashmap-cycle:_h_set_[1,a]'
+        if v.get('kind') == 'recursion' and cid.startswith('hist.len'):
+            # the run died in unbounded recursion before the history could be attached: rebuild it from the selector values
+            inp = v.get('inputs') or rr.get('inputs') or {}
+            names = [OPS[int(inp['op%d' % i])][0] for i in range(8) if 'op%d' % i in inp]
+            if any('_h' in n for n in names): return 'arr.hist:hashmap-cycle:' + ';'.join(names).replace(' ', '_')
+            return 'arr.hist:recursion:' + ';'.join(names).replace(' ', '_')
         for x in rr.get('violations', []):
             if x['msg'] == v['msg'] and x.get('cls') == 'hashmap-cycle': return 'arr.hist:hashmap-cycle:' + next((n for n in x['hist'] if n.startswith('_h set')), 'x').replace(' ', '_')
             if x['msg'] == v['msg'] and x.get('hist'): return 'arr.hist:' + ';'.join(x['hist']).replace(' ', '_')[:120] + (':' + x['cls'] if x.get('cls') else '')
